@@ -268,7 +268,15 @@ func (st *State) sliceAssume(s Sl) {
 // load reads the value designated by l.
 func (st *State) load(l Loc) Value {
 	if l.ArrRoot {
-		unsup("load of a whole heap-backed array")
+		at := under(l.Type).(*types.Array)
+		if at.Len() > 256 {
+			unsup("load of a whole heap-backed array")
+		}
+		av := Ar{}
+		for i := int64(0); i < at.Len(); i++ {
+			av.E = append(av.E, st.load(l.index(intLit(i))))
+		}
+		return av
 	}
 	if l.Alloc != nil {
 		root, ok := st.locals[l.Alloc]
@@ -316,7 +324,15 @@ func (st *State) assumeHeaders(v Value, t types.Type) {
 // store writes v to the location l.
 func (st *State) store(l Loc, v Value) {
 	if l.ArrRoot {
-		unsup("store of a whole heap-backed array")
+		at := under(l.Type).(*types.Array)
+		av, ok := v.(Ar)
+		if !ok || at.Len() > 256 || int64(len(av.E)) != at.Len() {
+			unsup("store of a whole heap-backed array")
+		}
+		for i, e := range av.E {
+			st.store(l.index(intLit(int64(i))), e)
+		}
+		return
 	}
 	if l.Alloc != nil {
 		root := st.locals[l.Alloc]
